@@ -137,7 +137,7 @@ def to_query(a):
     if op == "and":
         return query.And([to_query(k) for k in a["kids"]], boost=b)
     if op == "or":
-        q = query.Or([to_query(k) for k in a["kids"]], boost=b)
+        q = query.Or([to_query(k) for k in a["kids"]], boost=b, scale=a.get("scale"))
         if a.get("mtype"):
             q.matcher_type = a["mtype"]
         return q
